@@ -45,11 +45,26 @@ type ConnObs struct {
 }
 
 type ErrObs struct {
-	Severe bool   `json:"severe"`
-	Fatal  bool   `json:"fatal"`
-	Class  string `json:"class"`
-	Msg    string `json:"msg"`
-	Loc    string `json:"loc"`
+	Severe   bool     `json:"severe"`
+	Fatal    bool     `json:"fatal"`
+	Class    string   `json:"class"`
+	Msg      string   `json:"msg"`
+	Loc      string   `json:"loc"`
+	Mentions []string `json:"mentions"` // workload keys (ns/name[Kind]) of the world that appear in the message
+}
+
+func mentions(msg string, w *world.World) []string {
+	res := []string{}
+	if w == nil {
+		return res
+	}
+	for i := range w.Workloads {
+		k := w.Workloads[i].WKey()
+		if strings.Contains(msg, k) {
+			res = append(res, k)
+		}
+	}
+	return res
 }
 
 type XEntry struct {
@@ -306,7 +321,7 @@ func List(dir string, w *world.World, c *world.Conc, o ListOpts) (obs ListObs, o
 		if e.Error() != nil {
 			msg = e.Error().Error()
 		}
-		obs.Errors = append(obs.Errors, ErrObs{Severe: e.IsSevere(), Fatal: e.IsFatal(), Class: ClassifyErr(msg), Msg: msg, Loc: e.Location()})
+		obs.Errors = append(obs.Errors, ErrObs{Severe: e.IsSevere(), Fatal: e.IsFatal(), Class: ClassifyErr(msg), Msg: msg, Loc: e.Location(), Mentions: mentions(msg, w)})
 	}
 	if err != nil {
 		obs.Outcome = "error"
